@@ -185,8 +185,8 @@ def check(prop, tier, seed):
     if new:
         return 1
     if problems:
-        for p in problems[:5]:
-            print("INCONCLUSIVE: %s" % p)
+        for p in problems[:3]:
+            print("INCONCLUSIVE: %s" % p[-700:])
         return 2
     if nontriv < 2:
         print("INCONCLUSIVE: fewer than 2 non-trivial cases observed")
